@@ -413,6 +413,10 @@ func main() {
 					fmt.Sprintf("VERIF_SEED=%d", rseed), fmt.Sprintf("VERIF_SHARD=%d", k), fmt.Sprintf("VERIF_NSHARDS=%d", n),
 					fmt.Sprintf("VERIF_CHECKS=%d", r.Checks[tier]), "VERIF_WORK="+work, "VERIF_HARNESS="+harness)
 				cmd.Env = append(cmd.Env, r.Env...)
+				if r.Race {
+					os.MkdirAll(sr.faildir, 0o755)
+					cmd.Env = append(cmd.Env, "GORACE=halt_on_error=1", "VERIF_CURRENT_CASE="+filepath.Join(sr.faildir, "current.case"))
+				}
 				cmd.WaitDelay = 5 * time.Second
 				out, err := cmd.CombinedOutput()
 				sr.out = string(out)
@@ -455,6 +459,31 @@ func main() {
 			if strings.HasPrefix(line, "INCONCLUSIVE ") {
 				inconclusive = append(inconclusive, line)
 			}
+		}
+		if sr.run.Race && strings.Contains(sr.out, "WARNING: DATA RACE") {
+			// the race detector is the sanitizer, the generated schedule/concurrency plan is the input:
+			// the report (with the case that was running) becomes the replay artefact
+			rep := sr.out[strings.Index(sr.out, "WARNING: DATA RACE"):]
+			if i := strings.Index(rep, "\n=================="); i > 0 {
+				rep = rep[:i]
+			}
+			fn := regexp.MustCompile(`(?m)^  (github\.com/BondMachineHQ/BondMachine/\S+)\(\)`).FindAllStringSubmatch(rep, 2)
+			sig := "race"
+			for _, m := range fn {
+				sig += ":" + strings.TrimPrefix(m[1], "github.com/BondMachineHQ/BondMachine/pkg/")
+			}
+			cur, _ := os.ReadFile(filepath.Join(sr.faildir, "current.case"))
+			var rf map[string]any
+			if json.Unmarshal(cur, &rf) != nil || rf == nil {
+				rf = map[string]any{"property": id, "entry": "race", "case": nil}
+			}
+			rf["failure"] = map[string]any{"msg": "data race reported by the Go race detector while this case ran:\n" + firstLines(rep, 60), "sig": sig}
+			b, _ := json.MarshalIndent(rf, "", " ")
+			rp := filepath.Join(sr.faildir, "race.json")
+			os.WriteFile(rp, b, 0o644)
+			os.Remove(filepath.Join(sr.faildir, "current.case"))
+			reportFailure(rp)
+			continue
 		}
 		if sr.exit != 0 {
 			fails, _ := filepath.Glob(filepath.Join(sr.faildir, "*.json"))
